@@ -69,9 +69,13 @@ AppendData(axis, n) ==
   /\ UNCHANGED <<poly, origin>> /\ Step(Call("Append", [NoArg EXCEPT !.axis = axis, !.n = n], "ok"))
 
 \* a block whose other dimensions do not match the array is refused and nothing changes
-AppendBad(axis) ==
+\* kind "plus1": one other dimension is larger by one; kind "perm" (rank >= 3): the other dimensions are permuted,
+\* so the block has the right number of elements but the wrong shape
+Others(axis) == Axes \ {axis}
+AppendBad(axis, kind) ==
   /\ steps < MaxSteps /\ Rank >= 2
-  /\ Reject("AppendBad", [NoArg EXCEPT !.axis = axis])
+  /\ (kind = "perm" => Rank >= 3 /\ \E j1, j2 \in Others(axis) : ext[j1] # ext[j2])
+  /\ Reject("AppendBad", [NoArg EXCEPT !.axis = axis, !.n = IF kind = "perm" THEN 2 ELSE 1])
 
 SetExtent(e) ==
   /\ steps < MaxSteps /\ e # ext
@@ -116,7 +120,7 @@ Next ==
   \/ "Write" \in Acts /\ \E oc \in Requests(ext) : WriteSlab(oc[1], oc[2])
   \/ "SetAll" \in Acts /\ \E e \in Exts : SetAll(e)
   \/ "Append" \in Acts /\ \E a \in Axes, n \in 1..2 : AppendData(a, n)
-  \/ "Append" \in Acts /\ \E a \in Axes : AppendBad(a)
+  \/ "Append" \in Acts /\ \E a \in Axes, kind \in {"plus1", "perm"} : AppendBad(a, kind)
   \/ "Extent" \in Acts /\ \E e \in Exts : SetExtent(e)
   \/ "Cal" \in Acts /\ \E p \in {<<>>, <<1, 2>>, <<0, 1, 1>>} : SetPoly(p)
   \/ "Cal" \in Acts /\ \E o \in {NONE, 2} : SetOrigin(o)
